@@ -21,7 +21,7 @@ BOUNDS = {
 }
 ASSUMPTIONS = C07.ASSUMPTIONS
 
-FAILURES = ['missing', 'reader-error', 'lexerr', 'synerr', 'truncated', 'dupsym', 'unktype', 'generr', 'badimport']
+FAILURES = ['missing', 'reader-error', 'lexerr', 'synerr', 'truncated', 'dupsym', 'unktype', 'generr', 'badrange', 'badimport']
 
 
 def apply_failure(w, m, kind):
